@@ -92,3 +92,64 @@ def check_C01(tier, seed):
                         "refpeg (ref/refpeg.go) is the meaning of 'PEG semantics and documented value shapes'",
                         "library boundary: see coverage.stubs_and_intrinsics"]
     return rep.finish()
+
+
+import relharness
+
+
+def count_exprs(g):
+    n = [0]
+    def f(e):
+        n[0] += 1
+    for r in g["rules"]:
+        gspec.walk(r["expr"], f)
+    return n[0]
+
+
+def rel_case(g, props, a_flags, b_flags, suffix="", entries=("",), alphabet=None):
+    cid = g["name"] + suffix
+    g = json.loads(json.dumps(g))
+    peg_a = gspec.print_peg(g, "a")
+    peg_b = gspec.print_peg(g, "b")
+    a_rel, b_rel, h_rel = cid + "/a", cid + "/b", cid + "/hx"
+    src = relharness.rel_src(cid, a_rel, b_rel, alphabet or refharness.alphabet_for(g), props,
+                             state_keys=gspec.state_keys(g), uses_fault=gspec.uses_fault(g), entries=entries,
+                             budget_exprs=count_exprs(g))
+    names = ["Harness_" + p for p in props]
+    return catcheck.Case(cid, [(a_rel, peg_a, a_flags), (b_rel, peg_b, b_flags)], h_rel, {"h.go": src}, names,
+                         tags=g.get("tags", []), peg=peg_a, meta={"a": a_flags, "b": b_flags})
+
+
+REL_FUNCS = ["two generated parsers (real tool output for both flag sets): Parse and everything below it",
+             "builder.BasicLatinLookup / writeCharClassMatcher / ast.Optimize (through the generated grammar literal)"]
+
+
+def twin_check(w, rep, case, hre="Harness_TWIN$"):
+    twin = run_engine(w, pkgs="./" + case.harness_rel, harness=hre, nmin=1, nmax=1, timeout_s=60)
+    tw = sum(len(j.get("counterexamples") or []) for j in twin.get("jobs") or [])
+    if tw == 0:
+        rep.inconclusive.append("vacuity twin was not violated: the harness does not reach its assertions")
+    rep.cov["vacuity_twin_violated"] = tw > 0
+
+
+def check_C15(tier, seed):
+    rep = Report("C15", tier, seed, "model_checking")
+    w = Work()
+    w.build_pigeon()
+    cat = cores.class_catalogue()
+    if tier == "quick":
+        N, tmo = 2, 60
+    else:
+        N, tmo = 3, 900
+    cases = [rel_case(g, ["C15"], [], ["-optimize-basic-latin"]) for g in cat]
+    cases.append(rel_case(cat[0], ["TWIN"], [], ["-optimize-basic-latin"], suffix="_twin"))
+    catcheck.prepare(w, cases)
+    agg = catcheck.explore(w, rep, cases[:-1], "C15", r"Harness_C15$", N, tmo, "rel", seed=seed,
+                           validate_pkgs=6 if tier == "quick" else 20)
+    twin_check(w, rep, cases[-1])
+    std_cov(rep, agg, cases, {"input_bytes_max": N, "alphabet": "all 256 byte values (all runes, surrogates, overlongs, stray continuation bytes)",
+                              "classes": len(cat)},
+            "one state = one explored path (class of inputs on which both real parsers take the same decisions)",
+            REL_FUNCS)
+    rep.assumptions += ["classes outside the catalogue and inputs longer than the bound are outside the claim"]
+    return rep.finish()
